@@ -43,6 +43,9 @@ func selftestDeterminism(args []string) int {
 	for _, ps := range props {
 		for _, f := range ps.Families {
 			key := f.Family + fmt.Sprint(f.Param)
+			if *race && !f.Race {
+				continue // only the families that checks run under the race detector
+			}
 			if seenF[key] {
 				continue
 			}
